@@ -602,6 +602,33 @@ func (d *c25) apply(op simrt.Op) {
 				}
 			}
 		}
+	case "sbulkbad": // S=[ents] I=[node]: SetBulkAttrs with an extra, higher id carrying a value of an unsupported type
+		ents := c25Ents(S[0])
+		if len(ents) == 0 {
+			return
+		}
+		kind := ents[0].C
+		node := d.node(I[0])
+		bm := map[uint64]map[string]interface{}{}
+		max := uint64(0)
+		for _, e := range ents {
+			bm[e.ID] = c25APIMap(e.A)
+			if e.ID > max {
+				max = e.ID
+			}
+		}
+		bm[max+100000] = map[string]interface{}{"list": []int{1, 2}}
+		err := d.store(node, kind).SetBulkAttrs(bm)
+		d.last = fmt.Sprintf("node%d %s store SetBulkAttrs(%s plus an id with a list value) = %v", node, c25Kind(kind), S[0], err)
+		if err == nil {
+			return // a store that accepts such a value: nothing to judge here
+		}
+		c.Probe("bulk-refused")
+		for _, e := range ents {
+			if !d.readStore(node, kind, e.ID) {
+				return
+			}
+		}
 	case "dset": // S=[ents, same store, fresh keys, no deletes] I=[node, bulk]: written to ONE node's store only
 		if len(d.cl.nodes) < 2 {
 			return
@@ -1374,6 +1401,10 @@ func genC25(r *simrt.Rand, tier string) *simrt.Plan {
 					a = []c25KV{}
 				}
 				ents = append(ents, c25Ent{C: kind, ID: id, A: a})
+			}
+			if r.Bool(0.2) {
+				// the same call with one more id whose value no store accepts: refused as a whole
+				ops = append(ops, simrt.Op{K: "sbulkbad", S: []string{c25JSON(ents)}, I: []int64{node()}})
 			}
 			ops = append(ops, simrt.Op{K: "sbulk", S: []string{c25JSON(ents)}, I: []int64{node(), int64(r.Intn(2))}})
 		case "dset":
